@@ -189,3 +189,311 @@ for _m in ['prop_c08', 'prop_c13', 'prop_c14', 'prop_c15', 'prop_c16', 'prop_c17
             raise
         continue
     ALL.update(_mod.PROPS)
+
+
+# ----------------------------------------------------------------------------------------------
+# iterator properties (scan engine)
+
+import scan as _scan
+
+
+def dense_config(rng, nmodes, la_prob=0.2, trans=True, npat=(1, 4)):
+    alpha = gen.pick_alpha(rng)
+    modes = [gen.gen_small_mode(rng, 'M%d' % k, alpha, rng.randint(*npat), la_prob) for k in range(nmodes)]
+    if trans:
+        gen.add_transitions(rng, modes)
+    return modes, alpha
+
+
+class C06(ScanProperty):
+    ID = 'C06'
+    THEOREMS = [('Properties.C06', ['C06_has_transition_is_lookup', 'C06_mode_after_next', 'C06_peek_keeps_state', 'C06_set_mode',
+                                    'C06_fresh_iterator_mode0', 'C06_compiled_modes_ok'])]
+    COQ_TARGETS = ['Properties/C06.vo']
+    ASSUMPTIONS = ['at least one mode; transitions strictly sorted by token type and leading to existing modes; set_mode to existing modes',
+                   'distinct token types inside a mode (D8), token types < 2^32 (D9)']
+    RULE = ('mode graphs of 1..4 modes with 0..3 strictly sorted transitions per mode (self transitions, transitions on token types '
+            'that also exist in the target mode or in no mode, token types shared between modes), set_mode on the Scanner before '
+            'find_iter; histories of next / peek_n / set_mode / current_mode; non-trivial = distinct case in which the mode changed '
+            'at least once (by a transition or set_mode) and a token was delivered afterwards')
+    N = {'quick': 400, 'thorough': 8000}
+
+    def gen_case(self, rng, i):
+        nm = rng.randint(1, 4)
+        modes, alpha = dense_config(rng, nm, la_prob=0.1)
+        inp = gen.gen_small_input(rng, alpha, maxlen=14)
+        ops = gen.gen_history(rng, modes, inp, n=rng.randint(3, 14),
+                              kinds=['next'] * 6 + ['peek'] * 2 + ['set_mode', 'current_mode', 'current_mode'])
+        c = {'modes': modes, 'input': inp, 'ops': ops}
+        if rng.random() < 0.3:
+            c['scanner_mode'] = rng.randrange(nm)
+        return c
+
+    def nontrivial(self, case, res):
+        outs = res.get('outs', [])
+        modes_seen = set()
+        cur = 0
+        changed = False
+        tok_after = False
+        for o, out in zip(case['ops'], outs):
+            if o[0] == 'set_mode' and o[1] != cur:
+                cur = o[1]
+                changed = True
+            if o[0] == 'next' and out and out[0] == 1:
+                if changed:
+                    tok_after = True
+                tr = dict((t, m) for t, m in case['modes'][cur]['transitions'])
+                if out[1] in tr and tr[out[1]] != cur:
+                    cur = tr[out[1]]
+                    changed = True
+        return changed and tok_after
+
+
+class C07(ScanProperty):
+    ID = 'C07'
+    THEOREMS = [('Properties.C07', ['C07_find_from_nonempty', 'C07_stream_wf', 'C07_none_is_sticky', 'C07_scan_never_panics',
+                                    'C07_compiled_never_panics'])]
+    COQ_TARGETS = ['Properties/C07.vo']
+    ASSUMPTIONS = ['valid configuration: at least one mode, transitions to existing modes; set_offset on character boundaries or beyond',
+                   'build-time panic freedom is property C15 (Nfa model) and C03 (minimizer totality); the closure construction is observed',
+                   'distinct token types inside a mode (D8), token types < 2^32 (D9)']
+    RULE = ('all generators of C01/C04/C05/C06 mixed (nullable patterns, lookaheads, 1-4 byte characters, mode graphs) with every '
+            'call under catch_unwind in a build with debug assertions and overflow checks; histories include next after '
+            'exhaustion, advance_to and position with arbitrary arguments; non-trivial = distinct case with at least one token '
+            'and at least one None from next')
+    N = {'quick': 400, 'thorough': 8000}
+
+    def gen_case(self, rng, i):
+        k = i % 4
+        if k == 0:
+            modes = gen.gen_config(rng, nmodes=rng.randint(1, 3), la_prob=0.3, trans=True)
+            inp = gen.gen_input(rng, modes)
+        else:
+            modes, alpha = dense_config(rng, rng.randint(1, 3), la_prob=0.3)
+            inp = gen.gen_small_input(rng, alpha, maxlen=12, noise=0.25)
+        if k == 1:
+            ops = gen.all_next(inp) + [['next']] * 2
+        else:
+            ops = gen.gen_history(rng, modes, inp, n=rng.randint(4, 16))
+        return {'modes': modes, 'input': inp, 'ops': ops}
+
+    def nontrivial(self, case, res):
+        outs = res.get('outs', [])
+        return any(o and o[0] == 1 for o in outs) and any(o == [0] for o in outs)
+
+
+class C10(ScanProperty):
+    ID = 'C10'
+    THEOREMS = [('Properties.C10', ['C10_set_offset', 'C10_tokens_after_reset', 'C10_independent_of_history', 'C10_advance_lands',
+                                    'C10_advance_not_beyond_noop', 'C10_next_cursor_is_token_end'])]
+    COQ_TARGETS = ['Properties/C10.vo']
+    ASSUMPTIONS = C06.ASSUMPTIONS + ['offsets handed to set_offset/with_offset lie on a character boundary or beyond the end']
+    RULE = ('inputs with multi-byte characters; set_offset/with_offset to every kind of boundary (0, forwards, backwards, input length, '
+            'beyond), interleaved with next / peek_n / advance_to(end of a peeked match, also arbitrary positions) / set_mode; '
+            'non-trivial = distinct case with a reset to a position > 0 followed by a delivered token, or advance_to after a peek '
+            'followed by a delivered token')
+    N = {'quick': 400, 'thorough': 8000}
+
+    def gen_case(self, rng, i):
+        modes, alpha = dense_config(rng, rng.randint(1, 2), la_prob=0.25)
+        inp = gen.gen_small_input(rng, alpha, maxlen=14, noise=0.2)
+        bs = gen.boundaries(inp)
+        ops = []
+        for _ in range(rng.randint(3, 12)):
+            r = rng.random()
+            if r < 0.3:
+                ops.append(['set_offset', rng.choice(bs) if rng.random() < 0.85 else bs[-1] + rng.choice([1, 5])])
+            elif r < 0.6:
+                ops.append(['next'])
+            elif r < 0.75:
+                ops.append(['peek', rng.randint(1, 4)])
+                if rng.random() < 0.8:
+                    ops.append(['advance_to_peeked', rng.randint(0, 3)])
+            elif r < 0.82:
+                ops.append(['advance_to', rng.randint(0, bs[-1] + 2)])
+            elif r < 0.9:
+                ops.append(['set_mode', rng.randrange(len(modes))])
+            else:
+                ops.append(['offset'])
+        ops += [['next']] * rng.randint(1, 3)
+        return {'modes': modes, 'input': inp, 'ops': ops}
+
+    def nontrivial(self, case, res):
+        outs = res.get('outs', [])
+        armed = False
+        for o, out in zip(case['ops'], outs):
+            if (o[0] == 'set_offset' and o[1] > 0) or o[0] == 'advance_to_peeked':
+                armed = True
+            if armed and o[0] == 'next' and out and out[0] == 1:
+                return True
+        return False
+
+
+class C11(ScanProperty):
+    ID = 'C11'
+    THEOREMS = [('Properties.C11', ['C11_peek_is_iterated_next', 'C11_classification', 'C11_peek_total', 'C11_peek_pure'])]
+    COQ_TARGETS = ['Properties/C11.vo']
+    ASSUMPTIONS = C06.ASSUMPTIONS
+    RULE = ('n in 0..6, inputs with characters no pattern matches, mode graphs of C06; peek_n at every point of histories followed by '
+            'the next calls it predicts, also after resets; non-trivial = distinct case whose peek_n returned at least two matches '
+            'or stopped at a mode switch or at the end after skipping an unmatched character')
+    N = {'quick': 400, 'thorough': 8000}
+
+    def gen_case(self, rng, i):
+        modes, alpha = dense_config(rng, rng.randint(1, 3), la_prob=0.15)
+        inp = gen.gen_small_input(rng, alpha, maxlen=14, noise=0.25)
+        bs = gen.boundaries(inp)
+        ops = []
+        for _ in range(rng.randint(2, 6)):
+            n = rng.randint(0, 6)
+            if rng.random() < 0.25:
+                ops.append(['set_offset', rng.choice(bs)])
+            if rng.random() < 0.15:
+                ops.append(['set_mode', rng.randrange(len(modes))])
+            ops.append(['peek', n])
+            ops.append(['current_mode'])
+            ops += [['next']] * rng.randint(0, n)
+        return {'modes': modes, 'input': inp, 'ops': ops}
+
+    def nontrivial(self, case, res):
+        for o, out in zip(case['ops'], res.get('outs', [])):
+            if o[0] == 'peek' and out and ((out[0] in (1, 2) and out[1] >= 2) or out[0] == 3):
+                return True
+        return False
+
+
+class C12(ScanProperty):
+    """Isolation: interleavings of several iterators; every iterator's outputs are compared with the
+    model run of its own projection."""
+    ID = 'C12'
+    THEOREMS = [('Properties.C12', ['C12_isolation', 'C12_find_is_function', 'C12_fresh_iterator', 'C12_independent_of_past'])]
+    COQ_TARGETS = ['Properties/C12.vo']
+    ASSUMPTIONS = ['partial: in the functional model iterators share nothing by construction; aliasing guarantees of Rust '
+                   '(clone per find_iter, Arc-shared immutable predicate) are observed by the correspondence, not proved']
+    RULE = ('worlds of 2..3 iterators over 1..2 inputs created from one Scanner or from two scanners obtained through the cache for '
+            'equal configurations, with set_mode on the Scanner, partially consumed and dropped iterators, interleaved next / peek_n '
+            '/ set_offset / set_mode / advance_to; each iterator\'s outputs are compared with the Coq model run on its own '
+            'projection; non-trivial = distinct world in which at least two iterators delivered tokens in an interleaved order')
+    N = {'quick': 250, 'thorough': 5000}
+
+    def explore(self, rng, tier, rdir, out, replay=None):
+        if replay:
+            payload = json.load(open(replay))
+            worlds = [payload['world']] if 'world' in payload else []
+        else:
+            worlds = [self.gen_world(rng) for _ in range(self.N[tier])]
+        jobs = []
+        for i, w in enumerate(worlds):
+            j = dict(w)
+            j.update({'id': i, 'kind': 'world'})
+            jobs.append(j)
+        # cached worlds share the process-wide cache: configurations are generated fresh per world
+        results = run_harness(jobs, rdir, 'world')
+        entries = []
+        for wi, (w, r) in enumerate(zip(worlds, results)):
+            if r.get('build') != 'ok':
+                out.violations.append({'property': 'C12', 'what': 'supported configuration does not build: %s' % r.get('error'), 'world': w})
+                continue
+            if r.get('world_panic'):
+                out.violations.append({'property': 'C12', 'what': 'panic outside an iterator operation', 'world': w})
+                continue
+            per = {}
+            inp_of = {}
+            for st in w['steps']:
+                if st[0] == 'new':
+                    per[st[1]] = []
+                    inp_of[st[1]] = w['inputs'][st[3]]
+                elif st[0] == 'op' and st[1] in per:
+                    per[st[1]].append(st[2:])
+                elif st[0] == 'drop':
+                    pass
+            # ops after a drop are not executed by the harness: cut the projection
+            dropped = set()
+            per = {}
+            for st in w['steps']:
+                if st[0] == 'new':
+                    per[st[1]] = []
+                    dropped.discard(st[1])
+                elif st[0] == 'drop':
+                    dropped.add(st[1])
+                elif st[0] == 'op' and st[1] in per and st[1] not in dropped:
+                    per[st[1]].append(st[2:])
+            impl = dict((k, v) for k, v in r['outs'])
+            for it, ops in per.items():
+                modes_t = clist([mode_term(m) for m in r['dump']['modes']])
+                term = '(run_case %s %s 0 %s %s)' % (cls_term(r['cls']), modes_t, input_term(inp_of[it]), ops_term(ops))
+                entries.append((wi, it, term, impl.get(it, [])))
+        shards = [entries[k:k + 40] for k in range(0, len(entries), 40)]
+        paths = []
+        for n, sh_ in enumerate(shards):
+            p = os.path.join(rdir, 'world_%03d.v' % n)
+            with open(p, 'w') as f:
+                f.write(HEADER)
+                f.write('Eval vm_compute in %s.\n' % clist(['\n ' + e[2] for e in sh_]))
+            paths.append(p)
+        outs = coq_eval_files(paths)
+        nt = 0
+        for sh_, (rc, o), p in zip(shards, outs, paths):
+            if rc != 0:
+                out.broken.append({'what': 'coqc failed on %s' % p, 'detail': o[-2000:]})
+                continue
+            vals = parse_coq_value(o)
+            for (wi, it, _, impl), v in zip(sh_, vals):
+                # the model stops at a panic; the harness too
+                if v != impl:
+                    out.violations.append({'property': 'C12', 'what': 'iterator %d: outputs differ from the run of its own operations alone' % it,
+                                           'world': worlds[wi], 'impl': impl, 'model_alone': v})
+        seen = set()
+        for w, r in zip(worlds, results):
+            h = canon_hash(w)
+            if h in seen or r.get('build') != 'ok':
+                continue
+            seen.add(h)
+            active = [k for k, v in r['outs'] if any(o and o[0] == 1 for o in v)]
+            if len(active) >= 2:
+                nt += 1
+        return {'evaluations': len(worlds), 'distinct_nontrivial': nt, 'rule': self.RULE,
+                'samples': worlds[:2], 'iterator_projections_compared': len(entries),
+                'cached_worlds': sum(1 for w in worlds if w.get('cached'))}
+
+    def gen_world(self, rng):
+        modes, alpha = dense_config(rng, rng.randint(1, 3), la_prob=0.15)
+        inputs = [gen.gen_small_input(rng, alpha, maxlen=10, noise=0.15) for _ in range(rng.randint(1, 2))]
+        cached = rng.random() < 0.4
+        nsc = 2 if rng.random() < 0.4 else 1
+        steps = []
+        nit = rng.randint(2, 3)
+        live = []
+        nextid = 0
+        for _ in range(rng.randint(6, 24)):
+            r = rng.random()
+            if (r < 0.15 or not live) and nextid < nit + 2:
+                steps.append(['new', nextid, rng.randrange(nsc), rng.randrange(len(inputs))])
+                live.append((nextid, steps[-1][3]))
+                nextid += 1
+            elif r < 0.2 and live:
+                it = rng.choice(live)
+                live.remove(it)
+                steps.append(['drop', it[0]])
+            elif r < 0.27:
+                steps.append(['scanner_set_mode', rng.randrange(nsc), rng.randrange(len(modes))])
+            elif live:
+                it, ii = rng.choice(live)
+                bs = gen.boundaries(inputs[ii])
+                k = rng.random()
+                if k < 0.55:
+                    steps.append(['op', it, 'next'])
+                elif k < 0.7:
+                    steps.append(['op', it, 'peek', rng.randint(0, 3)])
+                elif k < 0.8:
+                    steps.append(['op', it, 'set_offset', rng.choice(bs)])
+                elif k < 0.88:
+                    steps.append(['op', it, 'set_mode', rng.randrange(len(modes))])
+                elif k < 0.95:
+                    steps.append(['op', it, 'advance_to', rng.randint(0, bs[-1] + 1)])
+                else:
+                    steps.append(['op', it, 'current_mode'])
+        return {'modes': modes, 'inputs': inputs, 'cached': cached, 'nscanners': nsc, 'steps': steps}
+
+
+ALL.update({c.ID: c for c in [C06, C07, C10, C11, C12]})
